@@ -175,4 +175,26 @@ example : expectedStatuses ["a".b, "b".b, "a".b] [("b".b, .ok), ("a".b, .er "one
 example : (Server.applyStatuses ["a".b, "b".b, "a".b] [("b".b, .ok), ("a".b, .er "one".b)] []).2 = true := by
   decide +kernel
 
+/-! ### a BDAT LAST that cannot be delivered (the repaired behaviour) -/
+
+/-- **C13_failed_last_one_per_recipient.**  In LMTP, whatever made the copy of a LAST chunk fail — the backend gave up with
+    an error, returned early, panicked, or the source failed — and whatever statuses the backend had set: the response the
+    server model writes is the status list of exactly the accepted recipients, in RCPT order (one reply each, naming its
+    recipient: `writeLmtpStatuses`). -/
+theorem C13_failed_last_one_per_recipient (s : Server.S) (k : Nat) (err : BRes) (hl : s.cfg.lmtp = true) :
+    ∃ sts, Server.bdatFailReplies s k true err = Server.writeLmtpStatuses s sts ∧ sts.map (·.1) = s.c.recipients := by
+  unfold Server.bdatFailReplies
+  simp only [hl, Bool.and_self, if_true]
+  have hm : ∀ (f : Bytes → BRes) (l : List Bytes), (l.map (fun a => (a, f a))).map (·.1) = l := by
+    intro f l; induction l with
+    | nil => rfl
+    | cons a t ih => simp only [List.map_cons, ih]
+  split
+  · exact ⟨_, rfl, hm (fun _ => err) _⟩
+  · split
+    · exact ⟨_, rfl, hm _ _⟩
+    · refine ⟨_, rfl, ?_⟩
+      rw [C13_model_is_spec]
+      exact C13_one_per_recipient _ _ _
+
 end SmtpV.Props.C13
